@@ -7,9 +7,11 @@ import (
 	"io"
 	"log/slog"
 	"net"
+	"reflect"
 	"time"
 
 	"github.com/anthdm/hollywood/actor"
+	"google.golang.org/protobuf/proto"
 	"storj.io/drpc/drpcconn"
 	"storj.io/drpc/drpcmanager"
 	"storj.io/drpc/drpcwire"
@@ -56,11 +58,11 @@ func (s *streamWriter) Invoke(msgs []actor.Envelope) {
 	var (
 		typeLookup   = make(map[string]int32)
 		typeNames    = make([]string, 0)
-		senderLookup = make(map[uint64]int32)
+		senderLookup = make(map[pidKey]int32)
 		senders      = make([]*actor.PID, 0)
-		targetLookup = make(map[uint64]int32)
+		targetLookup = make(map[pidKey]int32)
 		targets      = make([]*actor.PID, 0)
-		messages     = make([]*Message, len(msgs))
+		messages     = make([]*Message, 0, len(msgs))
 	)
 
 	for i := 0; i < len(msgs); i++ {
@@ -70,22 +72,26 @@ func (s *streamWriter) Invoke(msgs []actor.Envelope) {
 			senderID int32
 			targetID int32
 		)
-		typeID, typeNames = lookupTypeName(typeLookup, s.serializer.TypeName(stream.msg), typeNames)
-		senderID, senders = lookupPIDs(senderLookup, stream.sender, senders)
-		targetID, targets = lookupPIDs(targetLookup, stream.target, targets)
-
+		// A message that cannot be serialized is dropped on its own.
+		if _, ok := stream.msg.(proto.Message); !ok {
+			slog.Error("serialize", "err", "message is not a proto.Message", "type", reflect.TypeOf(stream.msg))
+			continue
+		}
 		b, err := s.serializer.Serialize(stream.msg)
 		if err != nil {
 			slog.Error("serialize", "err", err)
 			continue
 		}
+		typeID, typeNames = lookupTypeName(typeLookup, s.serializer.TypeName(stream.msg), typeNames)
+		senderID, senders = lookupPIDs(senderLookup, stream.sender, senders)
+		targetID, targets = lookupPIDs(targetLookup, stream.target, targets)
 
-		messages[i] = &Message{
+		messages = append(messages, &Message{
 			Data:          b,
 			TypeNameIndex: typeID,
 			SenderIndex:   senderID,
 			TargetIndex:   targetID,
-		}
+		})
 	}
 
 	env := &Envelope{
@@ -205,12 +211,19 @@ func (s *streamWriter) Start() {
 	s.init()
 }
 
-func lookupPIDs(m map[uint64]int32, pid *actor.PID, pids []*actor.PID) (int32, []*actor.PID) {
+type pidKey struct {
+	address string
+	id      string
+}
+
+// lookupPIDs returns the index of pid in pids, appending it if needed.
+// A nil pid has no entry; its index is -1.
+func lookupPIDs(m map[pidKey]int32, pid *actor.PID, pids []*actor.PID) (int32, []*actor.PID) {
 	if pid == nil {
-		return 0, pids
+		return -1, pids
 	}
 	max := int32(len(m))
-	key := pid.LookupKey()
+	key := pidKey{address: pid.Address, id: pid.ID}
 	id, ok := m[key]
 	if !ok {
 		m[key] = max
